@@ -20,7 +20,10 @@ Init == r \in 1..Len(Runs) /\ l = 1 /\ st = InitMon /\ lg = LogInit /\ bad = ""
 Next == /\ bad = "" /\ l <= Len(Runs[r].ev)
         /\ LET res == Step(st, Runs[r].ev[l], Runs[r].strict = 1)
                lres == IF Runs[r].log = 1 THEN LogStep(lg, st, Runs[r].ev[l]) ELSE LR(lg, "")
-           IN st' = res.st /\ lg' = lres.lg /\ bad' = (IF res.v # "" THEN res.v ELSE lres.v)
+               \* Runs[r].skip: objections (exact texts) that a first pass has already shown and that belong to another property than
+               \* the one being decided: the event is passed over as the monitor does for any objection, and the history goes on
+               skip == {Runs[r].skip[i] : i \in 1..Len(Runs[r].skip)}
+           IN st' = res.st /\ lg' = lres.lg /\ bad' = (IF res.v # "" /\ res.v \notin skip THEN res.v ELSE IF lres.v \notin skip THEN lres.v ELSE "")
         /\ l' = l + 1 /\ UNCHANGED r
 Spec == Init /\ [][Next]_vars
 
